@@ -1,0 +1,243 @@
+//go:build verif
+
+// In-memory replacement for the AF_PACKET sockets, used by the verification
+// harness in /verif only (build tag "verif").  A Segment is a virtual Ethernet
+// segment selected by interface name.
+package rsocks
+
+import (
+	"fmt"
+	"net"
+	"sync"
+	"time"
+)
+
+const (
+	KindIP  = 0
+	KindARP = 1
+)
+
+// Frame is one frame written to a send socket.
+type Frame struct {
+	T       time.Time
+	Kind    int
+	EthDst  net.HardwareAddr
+	Payload []byte
+}
+
+type Segment struct {
+	mu        sync.Mutex
+	recv      map[*VRecv]bool
+	Sent      []Frame
+	Opens     int
+	Closes    int
+	OpenSeq   int                              // number of open attempts so far
+	WriteSeq  int                              // number of write attempts so far
+	FailOpen  func(seq int, what string) error // nil = never fail
+	FailWrite func(seq int) error
+	OnSend    func(f Frame) // called outside the lock, may inject
+	Loopback  bool          // deliver sent frames to local receive sockets (as AF_PACKET does)
+}
+
+var (
+	segMu sync.Mutex
+	segs  = map[string]*Segment{}
+)
+
+// VerifSegment returns (creating if needed) the segment of the named interface.
+func VerifSegment(name string) *Segment {
+	segMu.Lock()
+	defer segMu.Unlock()
+	s := segs[name]
+	if s == nil {
+		s = &Segment{recv: map[*VRecv]bool{}}
+		segs[name] = s
+	}
+	return s
+}
+
+// VerifDropSegment forgets a segment.
+func VerifDropSegment(name string) {
+	segMu.Lock()
+	defer segMu.Unlock()
+	delete(segs, name)
+}
+
+type VRecv struct {
+	seg    *Segment
+	kind   int
+	ch     chan []byte
+	done   chan struct{}
+	closed bool
+}
+
+func (r *VRecv) Read(b []byte) (int, error) {
+	select {
+	case <-r.done:
+		return 0, fmt.Errorf("read on closed socket")
+	default:
+	}
+	select {
+	case p := <-r.ch:
+		return copy(b, p), nil
+	case <-r.done:
+		return 0, fmt.Errorf("read on closed socket")
+	}
+}
+
+func (r *VRecv) Close() error {
+	r.seg.mu.Lock()
+	defer r.seg.mu.Unlock()
+	if r.closed {
+		return fmt.Errorf("already closed")
+	}
+	r.closed = true
+	r.seg.Closes++
+	delete(r.seg.recv, r)
+	close(r.done)
+	return nil
+}
+
+// Inject delivers a frame to every open receive socket of the given kind.
+// It returns the number of sockets that got it.
+func (s *Segment) Inject(kind int, payload []byte) int {
+	s.mu.Lock()
+	defer s.mu.Unlock()
+	n := 0
+	for r := range s.recv {
+		if r.kind != kind {
+			continue
+		}
+		p := make([]byte, len(payload))
+		copy(p, payload)
+		select {
+		case r.ch <- p:
+			n++
+		default:
+		}
+	}
+	return n
+}
+
+// Listeners returns the number of open receive sockets of a kind.
+func (s *Segment) Listeners(kind int) int {
+	s.mu.Lock()
+	defer s.mu.Unlock()
+	n := 0
+	for r := range s.recv {
+		if r.kind == kind {
+			n++
+		}
+	}
+	return n
+}
+
+// Counters returns opens, closes.
+func (s *Segment) Counters() (int, int) {
+	s.mu.Lock()
+	defer s.mu.Unlock()
+	return s.Opens, s.Closes
+}
+
+// Frames returns a copy of the frames sent so far.
+func (s *Segment) Frames() []Frame {
+	s.mu.Lock()
+	defer s.mu.Unlock()
+	return append([]Frame{}, s.Sent...)
+}
+
+func (s *Segment) open(what string) error {
+	s.OpenSeq++
+	if s.FailOpen != nil {
+		if err := s.FailOpen(s.OpenSeq, what); err != nil {
+			return err
+		}
+	}
+	s.Opens++
+	return nil
+}
+
+func getRecv(iface *net.Interface, kind int, what string) (*VRecv, error) {
+	s := VerifSegment(iface.Name)
+	s.mu.Lock()
+	defer s.mu.Unlock()
+	if err := s.open(what); err != nil {
+		return nil, err
+	}
+	r := &VRecv{seg: s, kind: kind, ch: make(chan []byte, 4096), done: make(chan struct{})}
+	s.recv[r] = true
+	return r, nil
+}
+
+func GetIPRecvSock(iface *net.Interface) (*VRecv, error)  { return getRecv(iface, KindIP, "iprecv") }
+func GetARPRecvSock(iface *net.Interface) (*VRecv, error) { return getRecv(iface, KindARP, "arprecv") }
+
+type VSend struct {
+	seg    *Segment
+	kind   int
+	hw     net.HardwareAddr
+	closed bool
+}
+
+func getSend(iface *net.Interface, kind int, hw net.HardwareAddr, what string) (*VSend, error) {
+	s := VerifSegment(iface.Name)
+	s.mu.Lock()
+	defer s.mu.Unlock()
+	if err := s.open(what); err != nil {
+		return nil, err
+	}
+	h := make(net.HardwareAddr, len(hw))
+	copy(h, hw)
+	return &VSend{seg: s, kind: kind, hw: h}, nil
+}
+
+var bcastAddr = net.HardwareAddr{0xff, 0xff, 0xff, 0xff, 0xff, 0xff}
+
+func GetIPSendSock(iface *net.Interface) (*VSend, error) {
+	return getSend(iface, KindIP, bcastAddr, "ipsend")
+}
+func GetUnicastSendSock(iface *net.Interface, hwaddr net.HardwareAddr) (*VSend, error) {
+	return getSend(iface, KindIP, hwaddr, "ucsend")
+}
+func GetARPSendSock(iface *net.Interface) (*VSend, error) {
+	return getSend(iface, KindARP, bcastAddr, "arpsend")
+}
+
+func (w *VSend) Write(p []byte) (int, error) {
+	s := w.seg
+	s.mu.Lock()
+	if w.closed {
+		s.mu.Unlock()
+		return 0, fmt.Errorf("write on closed socket")
+	}
+	s.WriteSeq++
+	if s.FailWrite != nil {
+		if err := s.FailWrite(s.WriteSeq); err != nil {
+			s.mu.Unlock()
+			return 0, err
+		}
+	}
+	f := Frame{T: time.Now(), Kind: w.kind, EthDst: w.hw, Payload: append([]byte{}, p...)}
+	s.Sent = append(s.Sent, f)
+	cb := s.OnSend
+	lb := s.Loopback
+	s.mu.Unlock()
+	if lb {
+		s.Inject(w.kind, p)
+	}
+	if cb != nil {
+		cb(f)
+	}
+	return len(p), nil
+}
+
+func (w *VSend) Close() error {
+	w.seg.mu.Lock()
+	defer w.seg.mu.Unlock()
+	if w.closed {
+		return fmt.Errorf("already closed")
+	}
+	w.closed = true
+	w.seg.Closes++
+	return nil
+}
